@@ -7,6 +7,7 @@
 package verifrt
 
 import (
+	"runtime"
 	"encoding/hex"
 	"encoding/json"
 	"fmt"
@@ -150,7 +151,8 @@ type AssumeFailed struct{ Site string }
 
 func Assume(c bool) {
 	if !c {
-		panic(AssumeFailed{})
+		_, f, l, _ := runtime.Caller(1)
+		panic(AssumeFailed{Site: fmt.Sprintf("%s:%d", f, l)})
 	}
 }
 
@@ -339,6 +341,10 @@ func (d *Disk) Init(a uint64) []byte {
 
 func (d *Disk) ReadTo(a uint64, b []byte) { copy(b, d.Read(a)) }
 
+// Unchanged reports whether block n still has its initial contents (symbolically: whether no write
+// since the disk was created went to block n).
+func (d *Disk) Unchanged(n uint64) bool { return string(d.Peek(n)) == string(d.Init(n)) }
+
 // AssumeZero states the pre-state assumption that block n is all zero (natively: checked)
 func (d *Disk) AssumeZero(n uint64) {
 	for _, x := range d.Peek(n) {
@@ -401,8 +407,18 @@ func runOne(fns map[string]func()) string {
 	go func() {
 		defer func() {
 			if r := recover(); r != nil {
-				if _, ok := r.(AssumeFailed); ok {
-					done <- "kind=assume detail=an assumption of the harness does not hold on the replayed values"
+				if af, ok := r.(AssumeFailed); ok {
+					mu.Lock()
+					nf := len(Failed)
+					fl := strings.Join(Failed, ",")
+					mu.Unlock()
+					if nf > 0 {
+						// an assertion failed before this point; the recorded trace ends at the first
+						// violation, so choices and assumptions after it carry no meaning
+						done <- "kind=assert detail=" + fl
+						return
+					}
+					done <- "kind=assume detail=an assumption of the harness does not hold on the replayed values " + af.Site
 					return
 				}
 				done <- fmt.Sprintf("kind=panic detail=%v", r)
